@@ -11,6 +11,10 @@ from checks.flowgrid import quiet as quiet_stdout, make_grid
 LEVEL = "model_checking"
 
 
+class _ArgumentModified(Exception):
+    """raised by catalogue entries that build their own arguments and find them changed"""
+
+
 # ------------------------------------------------------------------ digests
 def _h(*parts):
     m = hashlib.blake2b(digest_size=6)
@@ -63,6 +67,12 @@ def relayout(a, layout):
         return np.asfortranarray(a)
     if layout == "f32":
         return a.astype(np.float32) if a.dtype.kind == "f" else a.astype(np.int32)
+    if layout == "nanedge":
+        # missing values at the first two and the last position (float data only)
+        b = np.array(a, dtype=np.float64 if a.dtype.kind == "f" else a.dtype)
+        if b.dtype.kind == "f" and b.size >= 3:
+            b.reshape(-1)[[0, 1, -1]] = np.nan
+        return b
     if layout == "pandas":
         if a.ndim == 1:
             return pd.Series(a, index=pd.RangeIndex(10, 10 + len(a)))
@@ -70,7 +80,7 @@ def relayout(a, layout):
     raise Machinery(layout)
 
 
-LAYOUTS = ["c", "strided", "f32", "pandas"]
+LAYOUTS = ["c", "strided", "f32", "pandas", "nanedge"]
 
 
 def catalogue():
@@ -184,6 +194,21 @@ def catalogue():
     G("grid.accumulate", lambda a: gridmod.accumulate(a["flow"], a["alt"]), ["flow", "alt"])
     G("grid.slope", lambda a: gridmod.slope(a["flow"], a["alt"]), ["flow", "alt"])
     G("grid.voronoi", lambda a: gridmod.voronoi(a["cat"], a["xy"]), ["cat", "xy"])
+    def gs(a):
+        alt2 = a["alt"].clone()
+        alt2.data[1, 2] = np.nan
+        alt2.data[3, 3] = np.nan
+        mask = gridmod.Grid("mask", 6, 5, dtype=np.int64)
+        mask.data = (np.arange(30).reshape(5, 6) % 7 != 0).astype(np.int64)
+        a["_alt2"], a["_mask"] = alt2, mask
+        d0 = (digest(alt2), digest(mask))
+        r = gridmod.gsmooth(alt2, mask, coastwin=3, sigma=0.5)
+        if (digest(alt2), digest(mask)) != d0:
+            raise _ArgumentModified("gsmooth changed the grid or mask passed to it")
+        return r
+    G("grid.gsmooth", gs, ["alt"])
+    G("Catchment.delineate_boundary", lambda a: (a["cat"].delineate_boundary(), a["cat"].idxcells_boundary)[1], ["cat"])
+    G("Catchment.compute_flowpathlengths", lambda a: (a["cat"].compute_flowpathlengths(), a["cat"].flowpathlengths)[1], ["cat"])
     G("grid.delineate_river", lambda a: gridmod.delineate_river(a["flow"], 0, nval=20), ["flow"])
     G("gutils.points_inside_polygon", lambda a: gutils.points_inside_polygon(a["xy"], a["poly"]), ["xy", "poly"])
     # ---- plot summaries
@@ -248,6 +273,9 @@ def run(ctx):
                         warnings.simplefilter("ignore")
                         r = fn(args)
                     results.append(digest(r))
+                except _ArgumentModified as e:
+                    results.append("modified:" + str(e))
+                    ctx.violation("%s:argument-modified" % name, str(e), {"function": name, "layout": layout})
                 except Exception as e:
                     # this input layout is not accepted by the function: not a call of the catalogue; the arguments must still be intact
                     results.append("exc:" + type(e).__name__)
